@@ -73,9 +73,12 @@ Section Storage.
   Lemma offer_T st n : T st -> T (offer o st n).
   Proof.
     intros [(A & B & C & D & E) F]. unfold offer. destruct qc_storage as (c & Hq & Hs). rewrite Hq, Hs.
+    assert (Hnote : forall s k, T s -> T (note_send o s k)) by (intros s k Hs'; unfold note_send; destruct (is_wfr o); exact Hs').
+    destruct (q_block c && over (q_cap c) (el_size o n)); [apply Hnote; unfold T, TT, reject; cbn; repeat split; auto|].
     destruct (over (q_cap c) _).
-    - unfold T, TT, reject. cbn. repeat split; auto.
-    - unfold T, TT, accept. rewrite Hst. cbn. rewrite qsum_app. unfold qsum at 2. cbn.
+    - unfold no_room. apply Hnote. unfold T, TT, reject. cbn. repeat split; auto.
+    - destruct (n =? o_badmarshal o); [apply Hnote; unfold T, TT, reject; cbn; repeat split; auto|].
+      apply Hnote. unfold T, TT, accept. rewrite Hst. cbn. rewrite qsum_app. unfold qsum at 2. cbn.
       split; [repeat split; auto; lia|exact F].
   Qed.
 
